@@ -6,7 +6,7 @@ import rxsci.framing.line as line
 import rxsci.framing.length_prefix as lp
 
 from vf.core import Sub, Violation
-from vf import drive
+from vf import drive, harness as H
 
 PID = 'C15'
 LEVEL = 'exploration'
@@ -305,8 +305,33 @@ def check_concurrent(case):
     return {'nontrivial': sum(1 for w in wanted if len(w) >= 2) >= 2, 'labels': [kind, 'shared-op' if case['shared_op'] else 'own-op']}
 
 
+def lp_many_enum(tier):
+    """thousands of small frames: in ONE chunk (reader-side buffers of 8 KiB are passed many times), and in fixed-size chunks that
+    never end on a frame boundary (a carry-over that is never empty for hundreds of KB)"""
+    for p in (1, 2, 4, 8):
+        for order in ('little', 'big'):
+            yield {'prefix': p, 'order': order, 'n': 1500, 'size': 5, 'chunk': 0}
+            yield {'prefix': p, 'order': order, 'n': 2000, 'size': 101 - p, 'chunk': 1000}
+
+
+def check_lp_many(case):
+    p, order = case['prefix'], case['order']
+    items = [bytes([(j * 7 + k) % 251 for k in range(case['size'])]) for j in range(case['n'])]
+    CTYPE[0] = 'bytes'
+    frames = _frame_lp(items, p, order)
+    stream = b''.join(frames)
+    chunks = [stream] if not case['chunk'] else [stream[a:a + case['chunk']] for a in range(0, len(stream), case['chunk'])]
+    r = drive.collect(rx.from_(chunks).pipe(lp.unframe(prefix_size=p, byteorder=order)))
+    H.require_clean(r, 'length_prefix.unframe', **case)
+    if r.items != items:
+        first = next((j for j, (a, b) in enumerate(zip(r.items, items)) if a != b), min(len(r.items), len(items)))
+        raise Violation('length-prefix round trip of %d small frames differs' % len(items), items_out=len(r.items), first_difference_at=first, **case)
+    return {'nontrivial': True, 'labels': ['p=%d' % p, order, 'one-chunk' if not case['chunk'] else 'fixed-chunks']}
+
+
 def subs(tier):
     return [
+        Sub('lp_many', check_lp_many, enum=lp_many_enum, doc='1500-2000 small frames in one chunk / in fixed 1000-byte chunks, every prefix size and byte order'),
         Sub('line', check_line, gen=line_case, examples={'quick': 3000, 'thorough': 300000},
             doc='line frame -> concat (+unterminated tail) -> arbitrary chunking -> unframe == items'),
         Sub('line_allcuts', check_line_allcuts, gen=line_small_case, examples={'quick': 150, 'thorough': 6000},
